@@ -51,6 +51,22 @@ EXTRA = [
 ]
 
 
+def canon_unnamed(ei, eo):
+    """einx names every unnamed axis `unnamed.<counter>` with a process-wide counter, so two traces of one description differ
+    in these names; rename them, consistently within one call, in order of first occurrence."""
+    ren = {}
+
+    def walk(j):
+        if isinstance(j, dict):
+            if j.get("k") == "axis" and isinstance(j.get("name"), str) and j["name"].startswith("unnamed"):
+                return dict(j, name=ren.setdefault(j["name"], f"unnamed.c{len(ren)}"))
+            return {k: walk(v) for k, v in j.items()}
+        if isinstance(j, list):
+            return [walk(v) for v in j]
+        return j
+    return walk(ei), walk(eo)
+
+
 def lower_tie(ctx, n, SizedCall, variants, prefix="lower"):
     drv = ctx.driver()
     # an own generator (seeded by VERIF_SEED): the call streams of the checks that run this tie stay what they were
@@ -131,8 +147,9 @@ def lower_tie(ctx, n, SizedCall, variants, prefix="lower"):
                 ctx.tie_broken(f"model:{prefix}-skeleton", f"einx.{sc.op}({sc.desc!r}): the model's skeleton differs between assignments with the same 1-pattern")
             # the instance of `lower_elementwise_size_generic` / `lower_reduce_size_generic` (Props/C17LowerOps.lean) for the base
             # assignment paired with every other one: hypotheses (both in the domain, related by gsim) and conclusion recomputed
-            for ei2, eo2 in solved[1:]:
-                g = drv.ask({"kind": "lower_generic", "family": fam, "op": sc.op, "exprs_in": solved[0][0], "exprs_out": solved[0][1],
+            ei1, eo1 = canon_unnamed(*solved[0])
+            for ei2, eo2 in (canon_unnamed(*x) for x in solved[1:]):
+                g = drv.ask({"kind": "lower_generic", "family": fam, "op": sc.op, "exprs_in": ei1, "exprs_out": eo1,
                              "exprs_in2": ei2, "exprs_out2": eo2})
                 if g.get("unsupported"):
                     ctx.count(f"{prefix}:{fam}:size-generic-unsupported")
